@@ -68,7 +68,8 @@ EXPECT_PROBES = ["decl_before_reg", "reg_before_decl", "chained_register",
                  "deferral_released_call_later", "double_release_rejected",
                  "quit_before_up", "quit_after_up", "quit_twice",
                  "quit_retry_while_starting", "quit_foreign_thread",
-                 "reregister", "empty_deps", "dup_deps", "redeclared"]
+                 "reregister", "empty_deps", "dup_deps", "redeclared",
+                 "listen_args"]
 
 # known-finding ids (tolerated only when listed as open in
 # /verif/known_findings.json, each at exactly the signature described)
@@ -121,7 +122,11 @@ def gen_plan(seed, tier):
       spec = {"kind": "ltd", "handlers": sorted(handlers), "deps": explicit,
               "form": form, "attrs": attrs, "short": r.chance(0.25),
               "adm": adm, "fail": fail if adm else "",
-              "chain": chain if adm else []}
+              "chain": chain if adm else [],
+              # listener options: for every component (None key), for one
+              # of them, a dict shared with the other sinks of the run
+              "largs": r.wpick([(6, ""), (2, "all"), (2, "one"),
+                                (2, "shared")])}
     else:
       deps = _subset(r, names, [(2, 0), (6, 1), (5, 2), (3, 3), (1, 4),
                                 (1, 5)])
@@ -824,6 +829,18 @@ class Harness(object):
       arg = list(deps)
     else:
       arg = None
+    la = sp.get("largs")
+    named = sorted(set(deps) | set(sp["handlers"]))
+    if la == "all":
+      kw["listen_args"] = {None: {"priority": 3}}
+    elif la == "one" and named:
+      kw["listen_args"] = {named[0]: {"priority": 3}}
+    elif la == "shared":
+      if not hasattr(self, "shared_largs"):
+        self.shared_largs = {None: {"priority": 2}}
+      kw["listen_args"] = self.shared_largs
+    if "listen_args" in kw:
+      self.probe("listen_args")
     self.ev("decl", w, "ltd", form, tuple(deps), tuple(sp["handlers"]))
     self.declared[w] += 1
     self.depth += 1
